@@ -44,7 +44,7 @@ struct State {
   Mk* mock[NOBJ] = {};
   std::vector<Mk*> husk;
   ExpPtr slot[NSLOT + NLIT];
-  unsigned long line[NSLOT + NLIT] = {};
+  unsigned long line[NALL] = {};
   std::unique_ptr<sequence> seq[NSEQ];
   deathwatched<Dwt>* dw[NDW] = {};
   ExpPtr mon[NDW][NMON];
@@ -237,8 +237,10 @@ const char* slot_file(int slot) {
     case 0: return slot_file0(); case 1: return slot_file1(); case 2: return slot_file2(); case 3: return slot_file3();
     case 4: return slot_file4(); case 5: return slot_file5(); case 6: return slot_file6(); case 7: return slot_file7();
   }
-  return lit_file();
+  return slot >= NSLOT + NLIT ? scoped_file() : lit_file();
 }
+void scoped_note(int scslot, const Spec& s, unsigned long line) { S->specs[s.eid] = s; S->line[NSLOT + NLIT + scslot] = line; }
+void scoped_forget(int scslot) { S->line[NSLOT + NLIT + scslot] = 0; }
 
 bool mock_alive(int obj) { return S->mock[obj] != nullptr; }
 
@@ -383,7 +385,7 @@ void drain_stream_tracers() {
       for (size_t i = c + 1; i < l.size(); ++i) if (!isdigit(static_cast<unsigned char>(l[i]))) return false;
       file = l.substr(0, c);
       bool known = file == mon_file();
-      for (int k = 0; k < NSLOT + NLIT && !known; ++k) if (file == slot_file(k)) known = true;
+      for (int k = 0; k < NALL && !known; ++k) if (file == slot_file(k)) known = true;
       if (!known) return false;
       line = strtoul(l.c_str() + c + 1, nullptr, 10);
       return true;
